@@ -190,12 +190,18 @@ impl CanonicalDeserializeWithFlags for Fq {
     fn deserialize_with_flags<R: ark_std::io::Read, F: Flags>(
         mut reader: R,
     ) -> Result<(Self, F), SerializationError> {
-        // Enough for the field element + 8 bits of flags. The last byte may or may not contain flags.
-        let mut bytes = [0u8; (Self::MODULUS_BIT_SIZE as usize + 7) / 8];
+        // Arkworks imposes this constraint (see `serialize_with_flags`)
+        if F::BIT_SIZE > 8 {
+            return Err(SerializationError::NotEnoughSpace);
+        }
+
+        // Enough for the field element + 8 bits of flags: the flags sit in the unused high bits of
+        // the element's last byte when they fit there, and in one extra byte otherwise.
+        let mut bytes = [0u8; (Self::MODULUS_BIT_SIZE as usize + 7) / 8 + 1];
 
         let expected_len = (Self::MODULUS_BIT_SIZE as usize + F::BIT_SIZE + 7) / 8;
         reader.read_exact(&mut bytes[..expected_len])?;
-        let flags = F::from_u8_remove_flags(&mut bytes[bytes.len() - 1])
+        let flags = F::from_u8_remove_flags(&mut bytes[expected_len - 1])
             .ok_or(SerializationError::UnexpectedFlags)?;
         // Then, convert the bytes to limbs, to benefit from the canonical check we have for
         // bigint.
